@@ -25,6 +25,9 @@ def main(argv):
             try:
                 f['case'] = mod.minimise(f['case'], f['bucket'])
                 f['minimised'] = True
+                for b, d in mod.check_case(f['case']):
+                    if b == f['bucket']:
+                        f['detail'] = str(d)[:4000]
             except Exception:
                 f['minimise_error'] = traceback.format_exc()[-1000:]
     with open(out, 'w') as f:
